@@ -147,6 +147,26 @@ func (L *Loaded) Execute(inst Instance) (x *Exec, err error) {
 		return nil, fmt.Errorf("harness function %s.%s not found", inst.Pkg, inst.Func)
 	}
 	x = NewExec(L.Prog, inst.Cfg)
+	if os.Getenv("GSX_PROF") != "" {
+		x.Prof, x.ProfCalls = map[string]int{}, map[string]int{}
+		defer func() {
+			type kv struct {
+				k string
+				v int
+			}
+			var l []kv
+			for k, v := range x.Prof {
+				l = append(l, kv{k, v})
+			}
+			sort.Slice(l, func(i, j int) bool { return l[i].v > l[j].v })
+			for i, e := range l {
+				if i > 25 {
+					break
+				}
+				fmt.Fprintf(os.Stderr, "PROF %9d terms %5d calls  %s\n", e.v, x.ProfCalls[e.k], e.k)
+			}
+		}()
+	}
 	defer func() {
 		if e := recover(); e != nil {
 			if ee, ok := e.(*ExecError); ok {
@@ -169,14 +189,16 @@ func (L *Loaded) Execute(inst Instance) (x *Exec, err error) {
 		}
 		args[i] = x.U.Const(w, uint64(inst.Args[i]))
 	}
+	defer x.CloseFeas()
 	x.CallFunction(fn, args, nil, x.U.True, "H")
 	return x, nil
 }
 
 type SolveOpts struct {
-	Solver    string
-	TimeoutMs int
-	LogFile   string
+	Solver      string
+	TimeoutMs   int
+	LogFile     string
+	PreferReach string
 }
 
 // Discharge decides every obligation of an executed harness.
@@ -211,21 +233,12 @@ func Discharge(x *Exec, inst Instance, so SolveOpts) *InstResult {
 			r.Unknown++
 		}
 	}
-	for _, a := range x.Assumes {
-		s.Assert(a)
-	}
-	for _, fterm := range x.parFinished {
-		s.Assert(fterm)
-	}
-	// pre-define everything we will query
-	for _, o := range x.Obligs {
-		s.define(o.Cond)
-	}
-	for _, w := range x.Reach {
-		s.define(w.Cond)
-	}
+	var base []*Term
+	base = append(base, x.Assumes...)
+	base = append(base, x.parFinished...)
+	with := func(t *Term) []*Term { return append(append([]*Term(nil), base...), t) }
 	// vacuity: assumptions satisfiable
-	res, note := s.Check()
+	res, note := s.Query(base)
 	count(res)
 	if res != Sat {
 		r.Status = "inconclusive"
@@ -235,41 +248,45 @@ func Discharge(x *Exec, inst Instance, so SolveOpts) *InstResult {
 	}
 	r.ReachTotal = len(x.Reach)
 	for _, w := range x.Reach {
-		s.Push()
-		s.Assert(w.Cond)
-		res, _ := s.Check()
+		res, _ := s.Query(with(w.Cond))
 		count(res)
 		if res == Sat {
 			r.ReachSat++
-			if r.ReachModel == nil {
+			if r.ReachModel == nil || w.Label == so.PreferReach {
 				if m, err := getModel(x, s); err == nil {
 					r.ReachModel = m
 					r.ReachLabel = w.Label
 				}
 			}
 		}
-		s.Pop()
 	}
-	var asserts []Oblig
-	for _, o := range x.Obligs {
-		asserts = append(asserts, o)
-	}
+	asserts := x.Obligs
 	r.NOblig = len(asserts)
 	if len(asserts) > 0 {
 		all := u.False
 		for _, o := range asserts {
 			all = u.Or(all, o.Cond)
 		}
-		s.Push()
-		s.Assert(all)
-		res, _ := s.Check()
+		res, _ := s.Query(with(all))
 		count(res)
-		s.Pop()
 		if res != Unsat {
-			for _, o := range asserts {
-				s.Push()
-				s.Assert(o.Cond)
-				res, _ := s.Check()
+			// locate the failing obligations: use the model when there is one
+			remaining := asserts
+			if res == Sat {
+				if m, err := getModel(x, s); err == nil {
+					var hit, rest []Oblig
+					for _, o := range asserts {
+						if m.Eval(o.Cond) == 1 {
+							hit = append(hit, o)
+						} else {
+							rest = append(rest, o)
+						}
+					}
+					remaining = append(hit, rest...)
+				}
+			}
+			for _, o := range remaining {
+				res, _ := s.Query(with(o.Cond))
 				count(res)
 				switch res {
 				case Sat:
@@ -286,7 +303,6 @@ func Discharge(x *Exec, inst Instance, so SolveOpts) *InstResult {
 				case Unknown:
 					r.Unknowns = append(r.Unknowns, o)
 				}
-				s.Pop()
 				if len(r.Violations) >= 3 {
 					break
 				}
